@@ -235,6 +235,27 @@ package keeper
 //@ ensures[del] !st.messengers.has[remoteDomain]
 //@ modifies st.messengers[remoteDomain]
 
+// ======================================================================= history lemmas (L4)
+// A `step` clause must hold over (old state, new state, msg) at every successful return of every MsgServer
+// method. With the SDK's execution model (a failed message changes nothing) these are the inductive steps of
+// the whole-history statements of C02, C07, C11, C12 and C13.
+
+// C13: 1 <= threshold <= number of enabled attesters is preserved by every transaction.
+//@ step[C13.inv] old(st.threshold.set && st.threshold.val >= 1 && uint64(st.threshold.val) <= st.nAtt && st.nAtt < 4294967296) ==> st.threshold.set && st.threshold.val >= 1 && uint64(st.threshold.val) <= st.nAtt
+
+// C11: the owner changes only by an acceptance by the pending owner, which clears the pending slot; the pending
+// slot changes only by that or by the owner naming a valid address; the three other roles only by the owner.
+//@ step[C11.owner]   (st.owner.val == old(st.owner.val) || (old(st.pendingOwner.set) && msg.From == old(st.pendingOwner.val) && st.owner.val == msg.From && !st.pendingOwner.set))
+//@ step[C11.pending] (st.pendingOwner.set == old(st.pendingOwner.set) && (st.pendingOwner.set ==> st.pendingOwner.val == old(st.pendingOwner.val))) || (msg.From == old(st.owner.val) && st.pendingOwner.set && validBech32(st.pendingOwner.val)) || (old(st.pendingOwner.set) && msg.From == old(st.pendingOwner.val) && !st.pendingOwner.set)
+//@ step[C11.others]  (st.attesterManager.val == old(st.attesterManager.val) || (msg.From == old(st.owner.val) && validBech32(st.attesterManager.val))) && (st.pauser.val == old(st.pauser.val) || (msg.From == old(st.owner.val) && validBech32(st.pauser.val))) && (st.tokenController.val == old(st.tokenController.val) || (msg.From == old(st.owner.val) && validBech32(st.tokenController.val)))
+
+// C12: a pause flag changes only by the pauser's action on that flag.
+//@ step[C12.flags] ((st.bmPaused.set == old(st.bmPaused.set) && st.bmPaused.val == old(st.bmPaused.val)) || msg.From == old(st.pauser.val)) && ((st.srPaused.set == old(st.srPaused.set) && st.srPaused.val == old(st.srPaused.val)) || msg.From == old(st.pauser.val))
+
+// C02: used stays used. C07: the counter moves by exactly 0 or 1 per successful transaction.
+//@ step[C02.monotone] forall d: uint32 :: forall n: uint64 :: old(st.usedNonces.has[d][n]) ==> st.usedNonces.has[d][n]
+//@ step[C07.counter]  old(st.nextNonce.set) ==> st.nextNonce.set && (st.nextNonce.val == old(st.nextNonce.val) || st.nextNonce.val == old(st.nextNonce.val) + 1)
+
 // ======================================================================= L3: administrative handlers
 // Schema (C10): wrong submitter ==> error and nothing written, emitted or called; success ==> submitter
 // holds the role. `total` states the exact success condition, so a new gate (e.g. a pause flag) fails it (C12).
